@@ -232,3 +232,114 @@ def bind(abstract, projected, table):
             return False
         return all([bind(a, p, table) for a, p in zip(abstract, projected)])
     return abstract == projected
+
+
+# ------------------------------------------------------------------------------------------
+# the "view" of a running order for spec/MosObserve.tla (read side, C15-C17)
+# ------------------------------------------------------------------------------------------
+import datetime as _dt
+
+BASE = _dt.datetime(2020, 1, 1)
+NIL = []
+
+
+def _opt_q(text, flags):
+    """a decimal number of seconds -> Opt(quarter-seconds)"""
+    try:
+        v = float(text)
+    except (TypeError, ValueError):
+        flags["exact"] = False
+        return NIL
+    q = v * 4
+    if q != int(q) or abs(q) > 10 ** 8:
+        flags["exact"] = False
+        return [int(q)]
+    return [int(q)]
+
+
+def time_q(d, flags):
+    """datetime -> quarter-seconds since BASE"""
+    try:
+        if d.tzinfo is not None:
+            flags["exact"] = False
+            d = d.replace(tzinfo=None)
+        s = (d - BASE).total_seconds()
+        q = s * 4
+        if q != int(q) or not (0 <= q < 2 ** 30):
+            flags["exact"] = False
+            return [int(q) % (2 ** 30)]
+        return [int(q)]
+    except Exception:  # noqa: BLE001
+        flags["exact"] = False
+        return NIL
+
+
+def _opt_t(text, flags):
+    if text is None:
+        return NIL
+    try:
+        from dateutil.parser import parse
+        return time_q(parse(text), flags)
+    except Exception:  # noqa: BLE001
+        flags["exact"] = False
+        return NIL
+
+
+def _payload(story_el):
+    md = story_el.find("mosExternalMetadata")
+    if md is None:
+        return None
+    return md.find("mosPayload")
+
+
+def _txt(el, tag):
+    if el is None:
+        return None
+    c = el.find(tag)
+    return None if c is None else c.text
+
+
+def _s(x):
+    return NONE if x is None else x
+
+
+def item_view(el):
+    note = None
+    try:
+        n = el.find("mosExternalMetadata").find("mosPayload").find(".//studioCommand[@type='note']")
+        note = n.find("text").text
+    except AttributeError:
+        note = None
+    return {"id": _s(_txt(el, "itemID")), "slug": _s(_txt(el, "itemSlug")), "type": _s(_txt(el, "objType")),
+            "object_id": _s(_txt(el, "objID")), "mos_id": _s(_txt(el, "mosID")), "note": _s(note)}
+
+
+def view_ro_xml(root):
+    flags = {"exact": True}
+    rc = root.find("roCreate")
+    ed = rc.find("roEdStart") if rc is not None else None
+    edtext = ed.text if ed is not None else None
+    stories = []
+    for st in (rc.findall("story") if rc is not None else []):
+        pay = _payload(st)
+
+        def num(tag):
+            t = _txt(pay, tag)
+            return NIL if (pay is None or pay.find(tag) is None) else _opt_q(t, flags)
+
+        def tim(tag):
+            return NIL if (pay is None or pay.find(tag) is None) else _opt_t(_txt(pay, tag), flags)
+
+        body = []
+        for c in st:
+            if c.tag == "p":
+                body.append({"kind": "p", "text": [ord(ch) for ch in (c.text or "")], "mixed": len(c) > 0, "id": NONE})
+            elif c.tag == "item":
+                body.append({"kind": "item", "text": [], "mixed": False, "id": _s(_txt(c, "itemID"))})
+            else:
+                body.append({"kind": "other", "text": [], "mixed": False, "id": NONE})
+        stories.append({"id": _s(_txt(st, "storyID")), "slug": _s(_txt(st, "storySlug")),
+                        "sd": num("StoryDuration"), "tt": num("TextTime"), "mt": num("MediaTime"),
+                        "st": tim("StoryStarted"), "en": tim("StoryEnded"),
+                        "body": body, "items": [item_view(i) for i in st.findall("item")]})
+    return {"edstart": NIL if edtext is None else _opt_t(edtext, flags), "exact": flags["exact"], "stories": stories}
